@@ -27,7 +27,7 @@ Default(par) ==
    fixed_max_order |-> 4, partitions |-> 16, lpc_order |-> 10, quant_precision |-> 15,
    use_direct_mse |-> FALSE, mae_steps |-> 0, alpha |-> "dflt", max_parameter |-> 14]
 
-AlphaInRange(a) == a \in {"rect", "zero", "tiny", "dflt", "one"}
+AlphaInRange(a) == a \in {"rect", "zero", "tiny", "dflt", "one", "third", "sqrth", "below1", "minpos"}
 
 \* C07: every field at every nesting level lies in its documented range
 Valid(c, experimental) ==
@@ -51,9 +51,10 @@ Rejects(c, experimental) ==
   (IF ~AlphaInRange(c.alpha) THEN {"qlpc.window.alpha"} ELSE {}) \cup
   (IF ~(experimental \/ (~c.use_direct_mse /\ c.mae_steps = 0)) THEN {"experimental options"} ELSE {})
 
-\* boundary values per field: min-1, min, max, max+1, extreme (plus the default)
+\* boundary values per field: min-1, min, max, max+1, extreme (plus the default); for the block size also the
+\* values the frame header codes specially (192, 576 * 2^k, 256 * 2^k) and their continuation beyond the table
 Boundary ==
-  [block_size |-> {0, 31, 32, 33, 4096, 32767, 32768, Huge},
+  [block_size |-> {0, 31, 32, 33, 192, 576, 4096, 4608, 9216, 16384, 18432, 32767, 32768, Huge},
    multithread |-> {TRUE, FALSE},
    workers |-> {NoWorkers, 1, 3},
    use_leftside |-> {TRUE, FALSE}, use_rightside |-> {TRUE, FALSE}, use_midside |-> {TRUE, FALSE},
@@ -64,7 +65,10 @@ Boundary ==
    quant_precision |-> {0, 1, 15, 16, Huge},
    use_direct_mse |-> {FALSE, TRUE},
    mae_steps |-> {0, 1, 3},
-   alpha |-> {"rect", "neg", "zero", "tiny", "dflt", "one", "above", "nan", "inf", "ninf"},
+   \* "third" 1/3, "sqrth" 0.70710677, "below1" 1 - 2^-24, "minpos" the smallest normal f32 (all need full float
+   \* precision to survive text), "aboveeps" 1 + 2^-23 and "negtiny" -1e-7 (the invalid values nearest to the range)
+   alpha |-> {"rect", "neg", "zero", "tiny", "dflt", "one", "above", "nan", "inf", "ninf",
+              "third", "sqrth", "below1", "minpos", "aboveeps", "negtiny"},
    max_parameter |-> {0, 1, 14, 15, 16, Huge}]
 
 \* all configurations in which at most two fields differ from the default
